@@ -160,6 +160,46 @@ type bitInterp struct {
 	args    []aval // when set, used instead of params (inlined call)
 	depth   int
 	err     string
+	pnames  []string // names of the top-level function's parameters (abit.in indexes them)
+}
+
+// wholeInput: the word is parameter p of the top-level function, untouched (its high bits possibly known zero).
+func wholeInput(b bits) (int, bool) {
+	p := -1
+	for i := 0; i < 64; i++ {
+		switch b[i].kind {
+		case bSrc:
+			if int(b[i].k) != i || (p >= 0 && int(b[i].in) != p) {
+				return 0, false
+			}
+			p = int(b[i].in)
+		case bZero:
+			if i < 32 {
+				return 0, false
+			}
+		default:
+			return 0, false
+		}
+	}
+	return p, p >= 0
+}
+
+// rangeAtomValue: the truth of "parameter pname <= bound" under the assumed atoms.
+func (bi *bitInterp) rangeAtomValue(pname string, bound uint64) bool {
+	const M = 4294967295
+	name := atomName(token.LEQ, pname, bound)
+	if bound != M {
+		if base, known := bi.atoms[atomName(token.LEQ, pname, M)]; known {
+			if base && bound >= M {
+				return true
+			}
+			if !base && bound <= M {
+				return false
+			}
+		}
+	}
+	bi.seen[name] = true
+	return bi.atoms[name]
 }
 
 func atomName(op token.Token, param string, c uint64) string {
@@ -308,6 +348,15 @@ func (bi *bitInterp) run() ([]aval, bool) {
 			case *ssa.Call:
 				// a helper of the same package (spreadBits, compactBits, …) is interpreted in place
 				cal := x.Call.StaticCallee()
+				// math/bits.Len of an untouched input: a length, comparable with constants only
+				if cal != nil && core.FuncPkgPath(cal) == "math/bits" && (cal.Name() == "Len" || cal.Name() == "Len64") && len(x.Call.Args) == 1 {
+					if av, ok := get(x.Call.Args[0]); ok && av.kind == "bits" {
+						if pi, whole := wholeInput(av.b); whole && pi < len(bi.names()) {
+							env[x] = aval{kind: "lenof", g: bi.names()[pi]}
+							continue
+						}
+					}
+				}
 				if cal == nil || len(cal.Blocks) == 0 || cal.Pkg != bi.fn.Pkg || bi.depth > 4 {
 					bi.err = "call that cannot be interpreted in place: " + x.String()
 					return nil, false
@@ -321,7 +370,7 @@ func (bi *bitInterp) run() ([]aval, bool) {
 					}
 					args = append(args, av)
 				}
-				sub := &bitInterp{fn: cal, globals: bi.globals, atoms: bi.atoms, seen: bi.seen, args: args, depth: bi.depth + 1}
+				sub := &bitInterp{fn: cal, globals: bi.globals, atoms: bi.atoms, seen: bi.seen, args: args, depth: bi.depth + 1, pnames: bi.names()}
 				res, ok := sub.run()
 				if !ok {
 					bi.err = cal.Name() + ": " + sub.err
@@ -354,7 +403,90 @@ func (bi *bitInterp) run() ([]aval, bool) {
 	return nil, false
 }
 
+func (bi *bitInterp) names() []string {
+	if bi.pnames != nil {
+		return bi.pnames
+	}
+	var l []string
+	for _, p := range bi.fn.Params {
+		l = append(l, p.Name())
+	}
+	return l
+}
+
 func (bi *bitInterp) binop(x *ssa.BinOp, a, b aval) (aval, bool) {
+	if a.kind == "lenof" {
+		k := int64(-1)
+		switch b.kind {
+		case "int":
+			k = b.i
+		case "bits":
+			if u, ok := b.b.asConst(); ok {
+				k = int64(u)
+			}
+		}
+		if k < 0 || k > 64 {
+			bi.err = "length of an input compared with something that is not a small constant: " + x.String()
+			return aval{}, false
+		}
+		upto := func(n int64) uint64 { // largest word of length n
+			if n >= 64 {
+				return ^uint64(0)
+			}
+			return uint64(1)<<uint(n) - 1
+		}
+		switch x.Op {
+		case token.LEQ:
+			return aval{kind: "bool", t: bi.rangeAtomValue(a.g, upto(k))}, true
+		case token.LSS:
+			if k == 0 {
+				return aval{kind: "bool", t: false}, true
+			}
+			return aval{kind: "bool", t: bi.rangeAtomValue(a.g, upto(k-1))}, true
+		case token.GTR:
+			return aval{kind: "bool", t: !bi.rangeAtomValue(a.g, upto(k))}, true
+		case token.GEQ:
+			if k == 0 {
+				return aval{kind: "bool", t: true}, true
+			}
+			return aval{kind: "bool", t: !bi.rangeAtomValue(a.g, upto(k-1))}, true
+		}
+		bi.err = "length of an input used other than in an order comparison: " + x.String()
+		return aval{}, false
+	}
+	// the high half of an untouched input, however it was cut out (x>>32, x&^M), against zero: x <= MaxUint32
+	if a.kind == "bits" && b.kind == "bits" && (x.Op == token.EQL || x.Op == token.NEQ) {
+		if cb, isC := b.b.asConst(); isC && cb == 0 {
+			if _, isConstA := a.b.asConst(); !isConstA {
+				p, high, okShape := -1, map[int]bool{}, true
+				for i := 0; i < 64; i++ {
+					switch a.b[i].kind {
+					case bZero:
+					case bSrc:
+						if p >= 0 && int(a.b[i].in) != p {
+							okShape = false
+						}
+						p = int(a.b[i].in)
+						high[int(a.b[i].k)] = true
+					default:
+						okShape = false
+					}
+				}
+				for k := 0; k < 64; k++ {
+					if high[k] != (k >= 32) {
+						okShape = false
+					}
+				}
+				if okShape && p >= 0 && p < len(bi.names()) {
+					t := bi.rangeAtomValue(bi.names()[p], 4294967295)
+					if x.Op == token.NEQ {
+						t = !t
+					}
+					return aval{kind: "bool", t: t}, true
+				}
+			}
+		}
+	}
 	if a.kind == "int" && b.kind == "int" {
 		switch x.Op {
 		case token.ADD:
@@ -611,11 +743,9 @@ func r41BitProvenance(c *core.Ctx) {
 				okDetail += fmt.Sprintf("for x<=M=%v, y<=M=%v ok is %v; ", tx, ty, out[1].t)
 			}
 			if tx && ty {
+				// (the four rows of the table already show that ok depends on both; which spelling of the range
+				// test met which atom is not asked)
 				zUnderPre = out[0].b
-				if !bi.seen[ax] || !bi.seen[ay] {
-					okExact = false
-					okDetail += "ok does not test both x and y against MaxUint32; "
-				}
 			}
 		}
 	}
